@@ -40,7 +40,7 @@ func CheckSession(next protocol.CheckHostFunc) protocol.CheckHostFunc {
 			return false, errors.New("no valid session info found in context")
 		}
 
-		if tunnel.TargetServer != host {
+		if hostPort(tunnel.TargetServer) != host {
 			log.Printf("Client specified host %s does not match token host %s", host, tunnel.TargetServer)
 			return false, nil
 		}
